@@ -91,6 +91,11 @@ func c17Property(t *rapid.T) {
 		{"admin-of-the-target-appchain", sim.ChainAdmins["chainB"]},
 		{"governance-admin", w.N.Admins[0]},
 		{"node-account", sim.KeyFor("node-1")},
+		{"frozen-governance-admin", sim.KeyFor("c17-frozen")},
+		{"rejected-admin-candidate", sim.KeyFor("c17-rejected")},
+	}
+	if !strings.Contains(tpl.Data["c17-frozen"], `"status":"frozen"`) || !strings.Contains(tpl.Data["c17-rejected"], `"status":"unavailable"`) {
+		t.Fatalf("harness: prelude roles are not in the expected status: %s / %s", tpl.Data["c17-frozen"], tpl.Data["c17-rejected"])
 	}
 	var ops []string
 	f := &failer{t: t, prop: "C17", ops: &ops}
